@@ -1083,7 +1083,6 @@ func checkC04(ck *Check) {
 		return
 	}
 	fn := a.CloudStep
-	ctx := ck.P.NewCtx(fn)
 	g := ck.groupTerm(fn)
 	n := 0
 	for _, s := range a.A {
@@ -1092,17 +1091,19 @@ func checkC04(ck *Check) {
 		}
 		n++
 		key := ck.P.siteKey(s.Call)
-		if s.Fn != fn || g == nil {
+		ictx, prefix := ck.fnChainCtxPC(a.CloudStepChain, s.Fn)
+		if ictx == nil || g == nil {
 			ck.undecided("C04.R1", key, ck.P.instrPos(s.Call), funcID(s.Fn), "IncreaseSize is called from the cloud step", "")
 			continue
 		}
+		ctx := ictx
 		cc := s.Call.Common()
 		cp := ctx.Term(cc.Value)
 		d := ctx.Term(cc.Args[0])
 		ts := &Term{Kind: "invoke", Name: "TargetSize", Args: []*Term{cp}, Typ: types.Typ[types.Int64]}
 		cmax := &Term{Kind: "invoke", Name: "MaxSize", Args: []*Term{cp}, Typ: types.Typ[types.Int64]}
 		// use the exact terms occurring in the function (identity tags if the cache were mutable here)
-		tsT, cmaxT := ck.findInvoke(ctx, fn, cp, "TargetSize"), ck.findInvoke(ctx, fn, cp, "MaxSize")
+		tsT, cmaxT := ck.findInvokeChain(a.CloudStepChain, cp, "TargetSize"), ck.findInvokeChain(a.CloudStepChain, cp, "MaxSize")
 		if tsT == nil || cmaxT == nil {
 			ck.fail("C04.R1", key, ck.P.instrPos(s.Call), funcID(fn), "the clamp reads TargetSize() and MaxSize() of the group it resizes", "not found", "")
 			continue
@@ -1114,7 +1115,7 @@ func checkC04(ck *Check) {
 		_ = ts
 		_ = cmax
 		maxT := ck.optTerm(g, "max_nodes")
-		pc := ctx.PC(s.Call)
+		pc := And(prefix, ctx.PC(s.Call))
 		sum := &Term{Kind: "binop", Name: "+", Args: []*Term{tsT, d}}
 		facts := []LinFact{
 			{A: sum, B: cmaxT, K: 0, Text: "TargetSize + d ≤ cloud MaxSize"},
@@ -1366,29 +1367,33 @@ func (ck *Check) onlyTheMaximumClamps(rule string) {
 	g := ck.groupTerm(fn)
 	n := 0
 	for _, s := range a.A {
-		if s.Class != "A-CLOUD-INC" || s.Fn != fn || g == nil {
+		if s.Class != "A-CLOUD-INC" || g == nil {
+			continue
+		}
+		ictx, prefix := ck.fnChainCtxPC(a.CloudStepChain, s.Fn)
+		if ictx == nil {
 			continue
 		}
 		n++
 		key := ck.P.siteKey(s.Call) + "/only-the-maximum-clamps"
 		cc := s.Call.Common()
-		cp := ctx.Term(cc.Value)
-		d := ctx.Term(cc.Args[0])
-		tsT, cmaxT := ck.findInvoke(ctx, fn, cp, "TargetSize"), ck.findInvoke(ctx, fn, cp, "MaxSize")
+		cp := ictx.Term(cc.Value)
+		d := ictx.Term(cc.Args[0])
+		tsT, cmaxT := ck.findInvokeChain(a.CloudStepChain, cp, "TargetSize"), ck.findInvokeChain(a.CloudStepChain, cp, "MaxSize")
 		delta := ck.cloudStepDelta(ctx, fn)
 		if tsT == nil || cmaxT == nil || delta == nil {
 			ck.undecided(rule, key, ck.P.instrPos(s.Call), funcID(fn), "the clamp reads TargetSize() and MaxSize() of the group it resizes, and the delta asked for is a parameter of the cloud step", "not found")
 			continue
 		}
 		maxT := ck.optTerm(g, "max_nodes")
-		pc := ctx.PC(s.Call)
+		pc := And(prefix, ictx.PC(s.Call))
 		sum := &Term{Kind: "binop", Name: "+", Args: []*Term{tsT, d}}
 		alts := []LinFact{
 			{A: delta, B: d, K: 0, Text: "Δ ≤ d (the whole delta)"},
 			{A: cmaxT, B: sum, K: 0, Text: "cloud MaxSize ≤ TargetSize + d"},
 			{A: maxT, B: sum, K: 0, Text: "max_nodes ≤ TargetSize + d"},
 		}
-		okv, why, err := ctx.EntailsLinearAny(pc, alts)
+		okv, why, err := ictx.EntailsLinearAny(pc, alts)
 		if err != nil {
 			ck.undecided(rule, key, ck.P.instrPos(s.Call), funcID(fn), "d = Δ, or TargetSize + d reaches max_nodes / the cloud maximum", err.Error())
 			continue
